@@ -236,6 +236,7 @@ func truthAt(f *ssa.Function, b *ssa.BasicBlock, c ssa.Value, truth bool) bool {
 
 func domMerge(r *engine.Run) {
 	domMergeAtomic(r, "DOM-merge")
+	rootMovedLast(r, "DOM-merge")
 	const rule = "DOM-merge"
 	f := r.Fn(rule, pkgUtil, "MerklePatriciaTrie", "mergeChanges")
 	if f != nil {
